@@ -51,16 +51,6 @@ var runs = map[string][2]int{ // quick, thorough (thorough sized for roughly 10-
 	"C08": {1500, 1000000},
 	"C09": {400, 200000},
 	"C10": {160, 150000},
-},
-	"C02": {360, 30000},
-	"C03": {700, 80000},
-	"C04": {1500, 300000},
-	"C05": {1200, 200000},
-	"C06": {3000, 600000},
-	"C07": {30, 3000},
-	"C08": {1500, 400000},
-	"C09": {400, 60000},
-	"C10": {160, 8000},
 }
 
 func (Engine) Runs(prop, tier string) int {
